@@ -29,7 +29,7 @@ RULE = (
     "side or binned/unbinned role; distinct = case digest."
 )
 ASSUMPTIONS = [
-    "exact equality; when a non-default leafsize was used for trees that are reused, weighted counts are compared to rtol 1e-12 (tree shape changes summation order)",
+    "exact equality; when a non-default leafsize was used for trees that are reused, weighted counts are compared to 1e-12 relative to the largest count of the array (tree shape changes summation order)",
 ]
 
 
@@ -243,7 +243,9 @@ def run_case(case):
                         if a.shape != b.shape:
                             bad = (k, j, "shape")
                         elif odd_leafsize:
-                            if not np.allclose(a, b, rtol=1e-12, atol=0):
+                            # differences of cumulative weighted counts leave residues of a few ulp of
+                            # the larger counts where the exact value is 0: tolerance relative to the array scale
+                            if not np.allclose(a, b, rtol=1e-12, atol=1e-12 * float(np.max(np.abs(b), initial=0.0))):
                                 bad = (k, j, "values")
                         elif not np.array_equal(a, b):
                             bad = (k, j, "values")
